@@ -262,7 +262,12 @@ def st_history(be, hiN, kinds=None, classes=('CliffordCircuit', 'Circuit')):
     def inner(N):
         step = st.integers(0, 9).flatmap(lambda i: st.fixed_dictionaries({'t': st.just('take'), 'gate': gen.st_gate(N, kinds)}) if i < 6 else
                                          st.just({'t': ['compile', 'compile', 'compile-layers', 'copy'][i - 6]}))
-        steps = st.tuples(st.lists(step, min_size=2, max_size=14), st.sampled_from([[], [{'t': 'compile'}], [{'t': 'compile'}], [{'t': 'compile-layers'}]])).map(lambda t: t[0] + t[1])
+        generic = st.tuples(st.lists(step, min_size=2, max_size=14), st.sampled_from([[], [{'t': 'compile'}], [{'t': 'compile'}], [{'t': 'compile-layers'}]])).map(lambda t: t[0] + t[1])
+        # copy-then-extend shape: several layers, a copy, more gates on the copy (the original is re-checked afterwards)
+        take = st.fixed_dictionaries({'t': st.just('take'), 'gate': gen.st_gate(N, kinds)})
+        copy_extend = st.tuples(st.lists(take, min_size=2, max_size=7), st.sampled_from([[], [], [{'t': 'compile'}]]), st.lists(take, min_size=1, max_size=4),
+                                st.sampled_from([[], [], [{'t': 'compile'}]])).map(lambda t: t[0] + t[1] + [{'t': 'copy'}] + t[2] + t[3])
+        steps = st.integers(0, 3).flatmap(lambda i: copy_extend if i == 0 else generic)
         return st.fixed_dictionaries({'be': st.just(be), 'N': st.just(N), 'steps': steps, 'cls': st.sampled_from(list(classes)), 'input': st_input(N)})
     return st.sampled_from([n for n in (1, 2, 3, 3, 4, 4) if n <= hiN]).flatmap(inner)
 
